@@ -400,6 +400,18 @@ func SetupQueryParallelism(firstAggHasStats bool, chainFactory func() []*DataPro
 		switch firstDpChain[mergeIndex].processor.(type) {
 		case *statsProcessor, *timechartProcessor: // TODO: should top/rare be included?
 			settings = mergeSettings{mergingStats: true}
+		case *sortProcessor:
+			// Merge by the sort's own order and limit. The DataProcessor's
+			// mergeSettings can't be used: when a later command ignores its
+			// input order, setMergeSettings() replaces the less function with
+			// one that is always true but keeps a limit, and merging under a
+			// limit in arbitrary order drops the wrong records.
+			sorter := firstDpChain[mergeIndex].processor.(*sortProcessor)
+			settings = mergeSettings{
+				mergingStats: false,
+				less:         sorter.lessDirectRead,
+				limit:        utils.Some(sorter.GetLimit()),
+			}
 		default:
 			settings = mergeSettings{
 				mergingStats: false,
